@@ -30,11 +30,13 @@ Proof.
   unfold same_out.
   induction x as [z|n|a IHa f|a IHa b IHb|a IHa b IHb|a IHa b IHb]; intros s s' v H; cbn [eval_expr] in H.
   - injection H as <- _. reflexivity.
-  - dbind H as o. destruct o; [|discriminate]. injection H as <- _. reflexivity.
+  - dbind H as o. destruct o; injection H as <- _; reflexivity.
   - dbind H as [s1 v1]. apply IHa in E.
-    destruct v1; try discriminate.
+    destruct v1; try discriminate;
+      try (destruct (py_own_attr f); [discriminate|]);
+      try (injection H as <- _; exact E).
     + destruct (nth_error (heap s1) h); [|discriminate].
-      destruct (row_attr c f); [|discriminate]. injection H as <- _. exact E.
+      destruct (row_attr c f); injection H as <- _; exact E.
     + destruct (String.eqb f "id"); [|discriminate]. dbind H as [s2 i].
       injection H as <- _. apply touch_slot_out in E0. unfold same_out in E0. congruence.
   - dbind H as [s1 v1]. dbind H as [s2 v2].
@@ -66,7 +68,7 @@ Proof.
       try (dbind H as [s1 t]; dbind H as w0; injection H as <- _;
            apply render_pieces_out in E; exact E).
     dbind H as [s1 w]. apply eval_expr_out in E.
-    destruct w; try (injection H as <- _; exact E).
+    destruct w; try discriminate; try (injection H as <- _; exact E).
     dbind H as w0. injection H as <- _. exact E.
   - dbind H as [s1 t]. dbind H as w0. injection H as <- _.
     apply render_pieces_out in E. exact E.
@@ -111,7 +113,7 @@ Proof.
     + apply IH in H. exact H.
     + dbind H as [s1 o]. dbind H as [s2 rest]. injection H as <- <-.
       apply IH in E0. destruct E0 as [Ho Hm]. cbn [map fst]. split; [|f_equal; exact Hm].
-      rewrite Ho. destruct v; try (injection E as <- _; reflexivity).
+      rewrite Ho. destruct v; try discriminate; try (injection E as <- _; reflexivity).
       * destruct (nth_error (heap s) h); [|discriminate]. injection E as <- _. reflexivity.
       * destruct (lookup name (slots s)); [|discriminate]. dbind E as [s3 i].
         injection E as <- _. apply touch_slot_out in E0. exact E0.
@@ -292,22 +294,117 @@ Qed.
 
 (* ------------------------------------------------------------------ dialect coercions *)
 
+Lemma str_all_impl (p q : ascii -> bool) s :
+  (forall c, p c = true -> q c = true) -> str_all p s = true -> str_all q s = true.
+Proof.
+  intros Hpq. induction s as [|c r IH]; cbn [str_all]; [reflexivity|].
+  intros H. apply andb_true_iff in H. destruct H as [H1 H2].
+  rewrite (Hpq c H1), (IH H2). reflexivity.
+Qed.
+
+Lemma digit_range c : is_digit c = true -> (48 <= nat_of_ascii c <= 57)%nat.
+Proof.
+  unfold is_digit. intros H. apply andb_true_iff in H. destruct H as [H1 H2].
+  apply Nat.leb_le in H1. apply Nat.leb_le in H2. lia.
+Qed.
+
+Lemma lower_range c : is_lower c = true -> (97 <= nat_of_ascii c <= 122)%nat.
+Proof.
+  unfold is_lower. intros H. apply andb_true_iff in H. destruct H as [H1 H2].
+  apply Nat.leb_le in H1. apply Nat.leb_le in H2. lia.
+Qed.
+
+Lemma wordchar_cases c : is_wordchar c = true ->
+  (97 <= nat_of_ascii c <= 122)%nat \/ (48 <= nat_of_ascii c <= 57)%nat \/
+  nat_of_ascii c = 95%nat \/ nat_of_ascii c = 32%nat.
+Proof.
+  unfold is_wordchar. intros H.
+  apply orb_true_iff in H. destruct H as [H|H]; [|right; right; right; apply Nat.eqb_eq; exact H].
+  apply orb_true_iff in H. destruct H as [H|H]; [|right; right; left; apply Nat.eqb_eq; exact H].
+  apply orb_true_iff in H. destruct H as [H|H]; [left; apply lower_range; exact H|right; left; apply digit_range; exact H].
+Qed.
+
+Ltac by_code :=
+  unfold is_sigma, is_alpha, is_lower, is_upper, is_digit, is_us, is_space, is_minus;
+  repeat match goal with
+  | |- context [(?a <=? ?b)%nat] => destruct (Nat.leb_spec a b)
+  | |- context [(?a =? ?b)%nat] => destruct (Nat.eqb_spec a b)
+  end; cbn; try reflexivity; try lia.
+
+Lemma digits_no_dot s : str_all is_digit s = true -> has_dot s = false.
+Proof.
+  intros H. unfold has_dot. rewrite (str_all_impl is_digit _ s); [reflexivity| |exact H].
+  intros c Hc. apply digit_range in Hc. destruct (Nat.eqb_spec (nat_of_ascii c) 46); [lia|reflexivity].
+Qed.
+
+Lemma wordchars_no_dot s : str_all is_wordchar s = true -> has_dot s = false.
+Proof.
+  intros H. unfold has_dot. rewrite (str_all_impl is_wordchar _ s); [reflexivity| |exact H].
+  intros c Hc. apply wordchar_cases in Hc. destruct (Nat.eqb_spec (nat_of_ascii c) 46); [lia|reflexivity].
+Qed.
+
 Lemma look_for_number_digits s :
   all_digits s = true -> first_is_zero s = false -> look_for_number s = Ok (VInt (digits_val 0 s)).
 Proof.
-  intros Hd Hz. unfold look_for_number. destruct s; [discriminate|]. rewrite Hd, Hz. reflexivity.
+  intros Hd Hz. unfold look_for_number. destruct s; [discriminate|].
+  rewrite (digits_no_dot _ Hd), Hz, Hd. reflexivity.
 Qed.
 
 Lemma look_for_number_leading_zero s :
   all_digits s = true -> first_is_zero s = true -> look_for_number s = Ok (VStr s).
 Proof.
-  intros Hd Hz. unfold look_for_number. destruct s; [discriminate|]. rewrite Hd, Hz. reflexivity.
+  intros Hd Hz. unfold look_for_number. destruct s; [discriminate|].
+  rewrite (digits_no_dot _ Hd), Hz. reflexivity.
+Qed.
+
+(* strings without spaces / underscores are fixed points of the helpers *)
+Lemma rstrip_no_space s : str_all (fun c => negb (is_space c)) s = true -> rstrip s = s.
+Proof.
+  induction s as [|c r IH]; cbn [str_all rstrip]; [reflexivity|].
+  intros H. apply andb_true_iff in H. destruct H as [H1 H2]. rewrite (IH H2).
+  apply negb_true_iff in H1. rewrite H1. destruct r; reflexivity.
+Qed.
+
+Lemma drop_us_no_us s : str_all (fun c => negb (is_us c)) s = true -> drop_us s = s.
+Proof.
+  induction s as [|c r IH]; cbn [str_all drop_us]; [reflexivity|].
+  intros H. apply andb_true_iff in H. destruct H as [H1 H2]. rewrite (IH H2).
+  apply negb_true_iff in H1. rewrite H1. reflexivity.
+Qed.
+
+Lemma us_ok_no_us s : str_all (fun c => negb (is_us c)) s = true ->
+  forall p, us_ok p s = match s with EmptyString => negb p | _ => true end.
+Proof.
+  induction s as [|c r IH]; cbn [str_all us_ok]; [reflexivity|].
+  intros H p. apply andb_true_iff in H. destruct H as [H1 H2].
+  apply negb_true_iff in H1. rewrite H1. rewrite (IH H2 false). destruct r; reflexivity.
 Qed.
 
 Lemma native_str_digits s :
   all_digits s = true -> first_is_zero s = false -> native_str s = Ok (VInt (digits_val 0 s)).
 Proof.
-  intros Hd Hz. unfold native_str. destruct s; [discriminate|]. rewrite Hd, Hz. reflexivity.
+  intros Hd Hz. destruct s as [|c r]; [discriminate|]. cbn [all_digits] in Hd.
+  assert (Hsig : str_all is_sigma (String c r) = true).
+  { apply (str_all_impl is_digit); [|exact Hd]. intros x Hx. apply digit_range in Hx. by_code. }
+  assert (Hsp : str_all (fun x => negb (is_space x)) (String c r) = true).
+  { apply (str_all_impl is_digit); [|exact Hd]. intros x Hx. apply digit_range in Hx. by_code. }
+  assert (Hus : str_all (fun x => negb (is_us x)) (String c r) = true).
+  { apply (str_all_impl is_digit); [|exact Hd]. intros x Hx. apply digit_range in Hx. by_code. }
+  assert (Hal : str_all (fun x => negb (is_alpha x)) (String c r) = true).
+  { apply (str_all_impl is_digit); [|exact Hd]. intros x Hx. apply digit_range in Hx. by_code. }
+  assert (Hdu : str_all (fun x => is_digit x || is_us x) (String c r) = true).
+  { apply (str_all_impl is_digit); [|exact Hd]. intros x Hx. rewrite Hx. reflexivity. }
+  assert (Hc : is_digit c = true).
+  { cbn [str_all] in Hd. apply andb_true_iff in Hd. tauto. }
+  unfold native_str. rewrite Hsig. cbn [negb].
+  assert (Hfs : first_is is_space (String c r) = false).
+  { cbn [first_is]. apply digit_range in Hc. by_code. }
+  rewrite Hfs, (rstrip_no_space _ Hsp).
+  assert (Hfm : first_is is_minus (String c r) = false).
+  { cbn [first_is]. apply digit_range in Hc. by_code. }
+  rewrite Hfm. cbn [first_is]. rewrite Hc, Hal. cbn [negb andb].
+  unfold dec_literal. rewrite Hdu, (us_ok_no_us _ Hus true), (drop_us_no_us _ Hus), Hz.
+  reflexivity.
 Qed.
 
 Lemma is_word_not_digits s : is_word s = true -> all_digits s = false.
@@ -320,11 +417,52 @@ Proof.
   rewrite Hd. reflexivity.
 Qed.
 
+Lemma rstrip_head c r : is_space c = false -> exists r', rstrip (String c r) = String c r'.
+Proof.
+  intros H. cbn [rstrip]. destruct (rstrip r); [rewrite H|]; eexists; reflexivity.
+Qed.
+
+Lemma eqb_head_neq c r (w : string) c0 w0 :
+  w = String c0 w0 -> c <> c0 -> String.eqb (String c r) w = false.
+Proof.
+  intros -> Hne. cbn [String.eqb]. destruct (Ascii.eqb_spec c c0); [contradiction|reflexivity].
+Qed.
+
 Lemma words_stay_strings s :
   is_word s = true -> look_for_number s = Ok (VStr s) /\ native_str s = Ok (VStr s).
 Proof.
   intros Hw. pose proof (is_word_not_digits s Hw) as Hd.
-  unfold look_for_number, native_str. destruct s; [discriminate|]. rewrite Hd, Hw. split; reflexivity.
+  destruct s as [|c r]; [discriminate|]. cbn [is_word] in Hw.
+  apply andb_true_iff in Hw. destruct Hw as [Hl Hr].
+  assert (Hcw : is_wordchar c = true) by (unfold is_wordchar; rewrite Hl; reflexivity).
+  assert (Hall : str_all is_wordchar (String c r) = true) by (cbn [str_all]; rewrite Hcw, Hr; reflexivity).
+  pose proof (lower_range _ Hl) as Hrg.
+  split.
+  - unfold look_for_number. rewrite (wordchars_no_dot _ Hall), Hd.
+    assert (Hz : first_is_zero (String c r) = false).
+    { cbn [first_is_zero]. destruct (Nat.eqb_spec (nat_of_ascii c) 48); [lia|reflexivity]. }
+    rewrite Hz. reflexivity.
+  - unfold native_str.
+    assert (Hsig : str_all is_sigma (String c r) = true).
+    { apply (str_all_impl is_wordchar); [|exact Hall]. intros x Hx. apply wordchar_cases in Hx.
+      by_code. }
+    rewrite Hsig. cbn [negb].
+    assert (Hsp : is_space c = false) by by_code.
+    cbn [first_is]. rewrite Hsp.
+    destruct (rstrip_head c r Hsp) as [r' Hr']. rewrite Hr'. cbn [first_is].
+    assert (Hm : is_minus c = false) by by_code.
+    assert (Hdg : is_digit c = false) by by_code.
+    assert (Hu : is_us c = false) by by_code.
+    rewrite Hm. cbn [first_is]. rewrite Hdg. cbn [andb].
+    unfold dec_literal. cbn [str_all]. rewrite Hdg, Hu. cbn [orb andb].
+    assert (HN : forall (c0 : ascii) w0 w, w = String c0 w0 -> is_lower c0 = false ->
+                 String.eqb (String c r') w = false).
+    { intros c0 w0 w -> Hc0. apply (eqb_head_neq c r' _ c0 w0 eq_refl).
+      intros ->. rewrite Hl in Hc0. discriminate. }
+    rewrite (HN "N"%char "one"%string "None"%string eq_refl eq_refl).
+    rewrite (HN "T"%char "rue"%string "True"%string eq_refl eq_refl).
+    rewrite (HN "F"%char "alse"%string "False"%string eq_refl eq_refl).
+    reflexivity.
 Qed.
 
 (* ------------------------------------------------------------------ counts *)
